@@ -129,7 +129,17 @@ class SegStr:
         """position of the first occurrence of a literal needle assuming text fields contain no blank and the
         needle is made of blanks; other needles are not supported here"""
         if set(needle) != {' '}:
-            raise Unsupported('find() of a non-blank needle in an abstract string')
+            # first literal occurrence; undecided when user text that may contain the needle precedes it
+            pos = 0
+            for s in self.segs:
+                if s.kind == 'lit':
+                    idx = s.text.find(needle, max(0, start - pos))
+                    if idx >= 0 and pos + idx >= start:
+                        return pos + idx
+                elif s.cls == 'text' and pos + len(s) > start:
+                    raise Unsupported('find(): user text precedes the first literal occurrence')
+                pos += len(s)
+            return -1
         pos = 0
         for s in self.segs:
             if s.kind == 'lit':
@@ -138,6 +148,25 @@ class SegStr:
                     return pos + idx
             pos += len(s)
         return -1
+
+    def rfind(self, needle):
+        """position of the last occurrence of a literal needle; None when a user-text field that may contain
+        the needle follows the last literal occurrence"""
+        pos = 0
+        best = -1
+        text_after = False
+        for s in self.segs:
+            if s.kind == 'lit':
+                idx = s.text.rfind(needle)
+                if idx >= 0:
+                    best = pos + idx
+                    text_after = False
+            elif s.cls == 'text':
+                text_after = True
+            pos += len(s)
+        if text_after:
+            return None
+        return best
 
     def strip(self, mode='strip', chars=None):
         segs = list(self.segs)
